@@ -36,6 +36,10 @@ CLAIMED = {
          "utils.py and CPython int/float arithmetic, tied by ~12k kernel-decided cases per run. Known finding: database "
          "attribute Offset ignored by the code (23 fields).",
          "DESIGN.md §5 C01"),
+ "C20": ("Coq proof (induction on the stream / read history, lemmas on find_marker under ++) of a hand model of the repaired buffer loop + kernel-evaluated (vm_compute) session correspondence with the real WaveShareNmea2000Gateway",
+        "C20_chunking (any segmentation = one read of the concatenation), C20_no_loss / C20_no_loss_valid (marker-free noise loses nothing), C20_resync / C20_resync_resume / C20_stream (after ANY bytes at most the first packet is lost, the next is cut intact and the loop is in step again; whole streams of packets and arbitrary gaps via must_cut), C20_checksum / C20_checksum_any (only 20-byte AA 55 windows with matching additive checksum reach _decode), C20_bounded / C20_bounded_step (<= 19 bytes kept after every read, <= 119 while processing, streams of any length), C20_repair_same_packets, C20_pinned_unbounded (F-serialbuf as a theorem about the unrepaired loop). All inputs, segmentations, lengths; no bounded search.",
+        "Trusted: Coq kernel + vm_compute; Serial.v as a model of _receive_impl's loop, decode_usb's acceptance test and calculate_canbus_checksum, tied by seeded sessions of the real client (stub reader, exhaustive segmentations of short streams, random ones of long streams); bytearray find/endswith/slice semantics; _decode/queue/callback after the acceptance test are not modelled here (checked on the real client by the search oracle only); non-empty reads (empty read = C13). Theorems closed under the global context.",
+        "DESIGN.md §5 C20"),
 }
 PENDING_REASON = "not claimed yet: model/theorems for this property are still being built (see DESIGN.md §9 build order)"
 
